@@ -424,16 +424,20 @@ TEMPLATES = {
     290: "<p>{&str prefix of one buffer}", 291: "<div id=&str prefix title=Option<&str prefix>>{(&str prefix, <span>{&str prefix})}",
     292: "<div class=&str prefix>{&str prefix}", 293: "<div class=Option<&str prefix>>", 294: "<div style=&str prefix>",
     295: "<div style:color=&str prefix>", 296: "<div inner_html=&str prefix>", 297: "<div data-x=&str prefix>",
+    298: "<div style:NAME=&str> with NAME in color / background-color / margin changing between steps (&str names)",
+    299: "<div style:NAME=String> with a changing String NAME", 232: "<div class:NAME=bool> with NAME in on / a / b changing",
+    264: "<div NAME=String> custom attribute with NAME in data-x / data-y changing",
     281: "ViewTemplate<<p id=&str class=&str>{&str}>",
     282: "ViewTemplate<<div id=&str>{(&str, <span class=&str>{String}, String)}>",
 }
 TYPED_ONLY = {4, 35}                    # Rc<str> is not Send: no into_any()
+NAME_CHANGE_TEMPLATES = {298: 3, 299: 3, 232: 3, 264: 2}      # template -> number of names (name = p0 mod n)
 CLASS_TOGGLE_TEMPLATES = {227, 231}     # class string + class:on toggle (F-C03-c territory)
 T_CLASSES = ["", "a", "b", "a b", "on", "a on"]
 
 
 def gen_typed_case(rng):
-    tpl = rng.choice(sorted(TEMPLATES))
+    tpl = rng.choice(sorted(NAME_CHANGE_TEMPLATES)) if rng.random() < 0.08 else rng.choice(sorted(TEMPLATES))
     erase = 0 if tpl in TYPED_ONLY else int(rng.random() < 0.4)
     hi = rng.choice([5, 9, 11])
     par = lambda: [rng.randint(0, hi) for _ in range(6)]
@@ -457,6 +461,20 @@ def typed_ok(vals):
         return True
     return (all(v[0] == 30 for v in vals) and len({(v[1], v[2]) for v in vals}) == 1 and vals[0][1] in TEMPLATES
             and not (vals[0][2] and vals[0][1] in TYPED_ONLY))
+
+
+def name_change_known(tpl, seq):
+    """F-C03-f on the templates whose pair NAME changes: the retained name of a style pair is never updated, so the
+    SECOND change of the name (even back to the first name) leaves a stale property; a custom attribute keeps the
+    attribute of the old name (its state does not know the key)"""
+    n = NAME_CHANGE_TEMPLATES[tpl]
+    names = [q[0] % n for q in seq]
+    changes = [i for i in range(1, len(names)) if names[i] != names[i - 1]]
+    if tpl in (298, 299):
+        return len(changes) >= 2
+    if tpl == 232:
+        return False            # the class toggle handles a change of its name
+    return bool(changes)
 
 
 def typed_class_edit(tpl, erase, a, b):
@@ -855,6 +873,8 @@ def classify(item, impl, model):
         if v0[1] in CLASS_TOGGLE_TEMPLATES and any(typed_class_edit(v0[1], v0[2], a[3] + [0] * 6, b[3] + [0] * 6)
                                                   for a, b in zip(upto, upto[1:])):
             return "F-C03-c"
+        if v0[1] in NAME_CHANGE_TEMPLATES and name_change_known(v0[1], [(v[3] + [0] * 6) for v in upto]):
+            return "F-C03-f"
         if v0[1] == 25 and npost > 0:
             return "F-C03-ab"           # StaticVec::rebuild re-mounts after the following siblings (F-C03-b)
         return None
